@@ -15,9 +15,12 @@
      C02_blocks_inc, C02_roundtrip_inc_multi, _nojunk        block theorem, .inc (filter state)
      C02_blocks_dtd(_bom), C02_roundtrip_dtd_multi(_bom)     block theorem, .dtd
      C02_blocks_properties_junk, C02_junk_properties         junk regions in .properties
+     C02_blocks_properties_x, C02_roundtrip_properties_x     .properties with CRLF / trailing blanks,
+                                                             indented keys, unterminated last comment
      C02_blocks_ini_junk, C02_roundtrip_ini_junk, C02_junk_ini   junk regions in .ini
      C02_blocks_dtd_junk(_bom), C02_roundtrip_dtd_junk, C02_junk_dtd   junk regions in .dtd
      C02_blocks_inc_junk, C02_roundtrip_inc_junk, C02_junk_inc   junk regions in .inc
+     C02_blocks_po_junk, C02_roundtrip_po_junk, C02_junk_po      junk regions in .po
      C02_blocks_po, C02_roundtrip_po_multi                   block theorem, .po (with values)
    Stated, not proved (see the end of the file): what is still missing of
    C02_roundtrip_<fmt> of DESIGN.md section 4; those clauses are covered by the
@@ -29,7 +32,8 @@ From CL Require Import Base.Sx Base.Res Base.Str Regex.Rx Model.Entry Model.Pars
   Proofs.C02Blocks.
 From CL Require Proofs.C02BlocksIni Proofs.C02BlocksInc Proofs.C02BlocksJunkRx Proofs.C02BlocksJunk
   Proofs.C02BlocksDtd Proofs.C02BlocksPoRx Proofs.C02BlocksPo Proofs.C02BlocksPoVal
-  Proofs.C02BlocksIniJunk Proofs.C02BlocksDtdJunk Proofs.C02BlocksIncJunk.
+  Proofs.C02BlocksIniJunk Proofs.C02BlocksDtdJunk Proofs.C02BlocksIncJunk Proofs.C02BlocksPoJunk
+  Proofs.C02BlocksPropsX.
 Import ListNotations.
 
 (* ---- (a) the License rule -------------------------------------------------------------
@@ -470,6 +474,65 @@ Proof.
   split; [repeat constructor|]. split; vm_compute; reflexivity.
 Qed.
 
+(* ---- .properties, the remaining layouts (Proofs/C02BlocksPropsX.v) -----------------------------------
+   One block grammar for everything above and, in addition: blanks, tabs and carriage returns
+   between a value and its newline (CRLF files); indentation between an attached comment and its
+   key; a last standalone comment without its newline.  Blocks: [XBlank w], [XComment cs nl],
+   [XEntity cs iw key b1 sc b2 conts lastl tb nl] (attached comment lines, indentation, key,
+   separator, value lines, trailing blanks, newline), [XGarbage gl]; [legal_xblock] and
+   [xadjacent_ok] are the decidable premises (as for C02_blocks_properties and
+   C02_blocks_properties_junk; a value followed by blanks is still a value that does not end
+   in a blank, and an empty value is not followed by a blank or tab, which the key expression
+   would take).  The trailing blanks are not part of the value: with the newline and the
+   whitespace blocks after it they are ONE whitespace entry; the indentation belongs to the inner
+   whitespace of the entity. *)
+Theorem C02_blocks_properties_x : forall bs : list C02BlocksPropsX.xblock,
+  Forall C02BlocksPropsX.legal_xblock bs -> C02BlocksPropsX.xadjacent_ok bs ->
+  walk_properties (C02BlocksPropsX.xfile_text bs) = Ok (C02BlocksPropsX.xentries_of bs).
+Proof. exact C02BlocksPropsX.blocks_properties_x. Qed.
+
+(* the entities are exactly the records (key, raw value without the trailing blanks, attached
+   comment), the standalone comments the comment blocks, the Junk entries the garbage regions *)
+Theorem C02_roundtrip_properties_x : forall bs : list C02BlocksPropsX.xblock,
+  Forall C02BlocksPropsX.legal_xblock bs -> C02BlocksPropsX.xadjacent_ok bs ->
+  let s := C02BlocksPropsX.xfile_text bs in
+  exists es, walk_properties s = Ok es /\
+    map (C02Blocks.entity_record s) (filter (C02Blocks.is_kind KEntity) es) =
+      C02BlocksPropsX.xrecords_of bs /\
+    map (fun e => C02Blocks.span_text s (e_span e)) (filter (C02Blocks.is_kind KComment) es) =
+      C02BlocksPropsX.xcomments_of bs /\
+    map (fun e => C02Blocks.span_text s (e_span e)) (filter (C02Blocks.is_kind KJunk) es) =
+      C02BlocksPropsX.xgarbage_of bs.
+Proof. exact C02BlocksPropsX.roundtrip_properties_x. Qed.
+
+(* the earlier block grammars are the special case without indentation and trailing blanks *)
+Theorem C02_properties_x_embeds : forall bs : list C02BlocksJunk.jblock,
+  C02BlocksPropsX.xfile_text (map C02BlocksPropsX.x_of_jblock bs) = C02BlocksJunk.jfile_text bs.
+Proof. exact C02BlocksPropsX.x_of_jblock_text. Qed.
+
+(*  k=v CR LF / #c, <2 blanks>a b = x y<blank><tab> / <empty line> / # s, # / CR LF / k=v CR LF /
+    garbage / #c, indented entity / a last comment without newline: the premises hold, the walk
+    gives these kinds and spans; and a file that ends in  k : a\ / b<blank>  without newline  *)
+Example C02_blocks_properties_x_example :
+  let A := C02Blocks.A in
+  let bs := [C02BlocksPropsX.xx_e1; C02BlocksPropsX.xx_e2; C02BlocksPropsX.XBlank (A [10]); C02BlocksPropsX.xx_c;
+             C02BlocksPropsX.XBlank (A [13; 10]); C02BlocksPropsX.xx_e1; C02BlocksPropsX.xx_g;
+             C02BlocksPropsX.xx_e2; C02BlocksPropsX.xx_c0] in
+  Forall C02BlocksPropsX.legal_xblock bs /\ C02BlocksPropsX.xadjacent_ok bs /\
+  map (fun e => (e_kind e, e_span e)) (C02BlocksPropsX.xentries_of bs) =
+  [(KEntity, (0, 3)); (KWhitespace, (3, 5)); (KEntity, (10, 19)); (KWhitespace, (19, 23));
+   (KComment, (23, 28)); (KWhitespace, (28, 31)); (KEntity, (31, 34)); (KWhitespace, (34, 36));
+   (KJunk, (36, 47)); (KEntity, (52, 61)); (KWhitespace, (61, 64)); (KComment, (64, 70))] /\
+  C02BlocksPropsX.xrecords_of bs =
+    [(A [107], A [118], None); (A [97; 32; 98], A [120; 32; 121], Some (A [35; 99]));
+     (A [107], A [118], None); (A [97; 32; 98], A [120; 32; 121], Some (A [35; 99]))] /\
+  let bs2 := [C02BlocksPropsX.xx_c; C02BlocksPropsX.XBlank (A [10]); C02BlocksPropsX.xx_e3] in
+  Forall C02BlocksPropsX.legal_xblock bs2 /\ C02BlocksPropsX.xadjacent_ok bs2.
+Proof.
+  split; [repeat constructor|]. split; [vm_compute; reflexivity|]. split; [vm_compute; reflexivity|].
+  split; [reflexivity|]. split; [repeat constructor|]. vm_compute; reflexivity.
+Qed.
+
 (* ---- junk regions for .ini (Proofs/C02BlocksIniJunk.v) --------------------------------------------
    The blocks of C02_blocks_ini plus garbage regions [IJG gl]: lines, each ended by a newline,
    without "=" and "[" that do not start with ";" or "#", the first of which starts with a
@@ -709,6 +772,78 @@ Example C02_blocks_po_example :
      (mkpov (A [97]) None (A [98]), Some (A [35; 32; 99; 10]))].
 Proof. split; [repeat constructor|]. split; [vm_compute; reflexivity|]. reflexivity. Qed.
 
+(* ---- junk regions for .po (Proofs/C02BlocksPoJunk.v) ----------------------------------------------
+   The blocks of C02_blocks_po plus garbage regions [PJG g]: any nonempty text without "#" in which
+   "m" is never directly followed by "s" (neither msgctxt nor msgid starts inside it), not
+   starting with whitespace or a double quote.  A region is followed by the end of the file, a
+   comment or a message and does not directly follow a standalone comment ([pjadjacent_ok]; the
+   License rule is tracked through the region).  The walk yields ONE Junk entry per region,
+   covering exactly the region. *)
+Theorem C02_blocks_po_junk : forall bs : list C02BlocksPoJunk.pjblock,
+  Forall C02BlocksPoJunk.legal_pjblock bs -> C02BlocksPoJunk.pjadjacent_ok bs ->
+  walk_po (C02BlocksPoJunk.pjfile_text bs) = Ok (C02BlocksPoJunk.pjentries_of bs).
+Proof. exact C02BlocksPoJunk.blocks_po_junk. Qed.
+
+(* every message is recovered with the values of its string lists and its attached comment,
+   every standalone comment is a comment entry, and the texts of the Junk entries are, one for
+   one and in order, exactly the garbage regions *)
+Theorem C02_roundtrip_po_junk : forall bs : list C02BlocksPoJunk.pjblock,
+  Forall C02BlocksPoJunk.legal_pjblock bs -> C02BlocksPoJunk.pjadjacent_ok bs ->
+  let s := C02BlocksPoJunk.pjfile_text bs in
+  exists es, walk_po s = Ok es /\
+    map (fun e => (po_value_at s (fst (e_span e)), option_map (C02BlocksPoVal.span_text' s) (e_pre e)))
+        (filter (C02BlocksPoVal.is_kind KEntity) es) =
+      map (fun r => (Ok (fst r), snd r)) (C02BlocksPoJunk.pjrecords_of bs) /\
+    map (fun e => C02BlocksPoVal.span_text' s (e_span e)) (filter (C02BlocksPoVal.is_kind KComment) es) =
+      C02BlocksPoJunk.pjcomments_of bs /\
+    map (fun e => C02BlocksPoVal.span_text' s (e_span e)) (filter (C02BlocksPoVal.is_kind KJunk) es) =
+      C02BlocksPoJunk.pjgarbage_of bs.
+Proof. exact C02BlocksPoJunk.roundtrip_po_junk. Qed.
+
+(* one garbage region inserted between two legal block lists: every message (values, attached
+   comment) and every standalone comment of both lists is recovered unchanged, in order, and
+   there is exactly ONE Junk entry; its span starts where the text of the first list ends and
+   covers exactly the garbage *)
+Theorem C02_junk_po : forall (bs1 : list C02BlocksPo.pblock) (g : str) (bs2 : list C02BlocksPo.pblock),
+  Forall C02BlocksPo.legal_pblock bs1 -> C02BlocksPoJunk.legal_pgarbage g = true ->
+  Forall C02BlocksPo.legal_pblock bs2 ->
+  C02BlocksPoJunk.pjadjacent_ok (C02BlocksPoJunk.pwith_garbage bs1 g bs2) ->
+  let s := C02BlocksPo.pfile_text bs1 ++ g ++ C02BlocksPo.pfile_text bs2 in
+  let p := length (C02BlocksPo.pfile_text bs1) in
+  exists es, walk_po s = Ok es /\
+    map (fun e => (po_value_at s (fst (e_span e)), option_map (C02BlocksPoVal.span_text' s) (e_pre e)))
+        (filter (C02BlocksPoVal.is_kind KEntity) es) =
+      map (fun r => (Ok (fst r), snd r))
+          (C02BlocksPoVal.precords_of bs1 ++ C02BlocksPoVal.precords_of bs2) /\
+    map (fun e => C02BlocksPoVal.span_text' s (e_span e)) (filter (C02BlocksPoVal.is_kind KComment) es) =
+      C02BlocksPoVal.pcomments_of bs1 ++ C02BlocksPoVal.pcomments_of bs2 /\
+    filter (C02BlocksPoVal.is_kind KJunk) es = [mk_junk (p, p + length g)] /\
+    slice s p (p + length g) = g.
+Proof. exact C02BlocksPoJunk.po_junk_one_region. Qed.
+
+(*  message / "junk text" newline / message with comment, blank, message : the premises hold; and a
+    longer file with three regions (the last without final newline), by evaluation *)
+Example C02_junk_po_example :
+  let A := C02BlocksPo.A in
+  let g := A [106; 117; 110; 107; 32; 116; 101; 120; 116; 10] in
+  let bs1 := [C02BlocksPo.px_e1] in let bs2 := [C02BlocksPo.px_e2; C02BlocksPo.px_b; C02BlocksPo.px_e3] in
+  Forall C02BlocksPo.legal_pblock bs1 /\ C02BlocksPoJunk.legal_pgarbage g = true /\
+  Forall C02BlocksPo.legal_pblock bs2 /\
+  C02BlocksPoJunk.pjadjacent_ok (C02BlocksPoJunk.pwith_garbage bs1 g bs2) /\ length g = 10 /\
+  let PJB := C02BlocksPoJunk.PJB in let PJG := C02BlocksPoJunk.PJG in
+  let bs := [PJB C02BlocksPo.px_e1; C02BlocksPoJunk.pjx_g; PJB C02BlocksPo.px_e2; PJB C02BlocksPo.px_b2;
+             PJB C02BlocksPo.px_c; PJB C02BlocksPo.px_b2; PJG (A [120; 32; 61; 32; 121; 10]);
+             PJB C02BlocksPo.px_e1; PJG (A [116; 97; 105; 108])] in
+  Forall C02BlocksPoJunk.legal_pjblock bs /\ C02BlocksPoJunk.pjadjacent_ok bs /\
+  map (fun e => C02BlocksPoVal.span_text' (C02BlocksPoJunk.pjfile_text bs) (e_span e))
+      (filter (C02BlocksPoVal.is_kind KJunk) (C02BlocksPoJunk.pjentries_of bs)) =
+    [A [106; 117; 110; 107; 32; 116; 101; 120; 116; 10]; A [120; 32; 61; 32; 121; 10]; A [116; 97; 105; 108]].
+Proof.
+  split; [repeat constructor|]. split; [reflexivity|]. split; [repeat constructor|].
+  split; [vm_compute; reflexivity|]. split; [reflexivity|].
+  split; [repeat constructor|]. split; vm_compute; reflexivity.
+Qed.
+
 (* the separation premise is needed (the listed finding): a comment block, ONE blank line and a
    message do not parse as a standalone comment and a message -- the same text IS the message
    with its comment attached across the blank line *)
@@ -725,9 +860,8 @@ Example C02_po_one_blank_line :
 Proof. exact C02BlocksPo.px_one_blank_line. Qed.
 
 (* ---- stated, NOT PROVED ---------------------------------------------------------------------
-   Still missing: junk regions for po (and DTD garbage that starts with <!ENTITY or <!--, inc garbage
-   with a # in it); in .properties blanks between a value and
-   its newline, indentation between an attached comment and its key, garbage that shares a line
-   with a following comment, garbage without final newline at the end of the file; Fluent and
-   Android (library parsers: oracle only).  The executable counterpart of all of it is the
-   oracle of harness/props/c02.py for all seven formats. *)
+   Still missing: garbage outside the stated region grammars (DTD garbage that starts with <!ENTITY or
+   <!--, inc and po garbage with a # in it, po garbage containing "ms", properties/ini garbage
+   whose last line has no newline at the end of the file or that shares a line with what
+   follows); Fluent and Android (library parsers: oracle only).  The executable counterpart of
+   all of it is the oracle of harness/props/c02.py for all seven formats. *)
